@@ -162,8 +162,21 @@ pub fn resolve_encoding<'encoding>(
                 }
             }
             
-            report.message(
-                diagn::Message::fuse_topmost(msgs));
+            if msgs.len() > 0
+            {
+                report.message(
+                    diagn::Message::fuse_topmost(msgs));
+            }
+            else
+            {
+                // No candidate failed a constraint, but none could be
+                // resolved either (e.g. a value still unknown on the
+                // final iteration): callers rely on an error having
+                // been reported whenever `None` is returned.
+                report.error_span(
+                    "failed to resolve instruction",
+                    instr_span);
+            }
         }
 
         return Ok(None);
